@@ -334,6 +334,18 @@ def _fit_op(world, program, op, h, d, p0, mspec, hspec, stats, hist, seq):
     except Exception as e:
         diverged = any(not bool(torch.isfinite(q).all()) or float(q.detach().abs().max()) > 1e4
                        for q in h.model.parameters() if not nn.parameter.is_lazy(q) and q.numel())
+        if not diverged:
+            # ... or the parameters are still numbers but the P&L they produce is not (one momentum step on a market quoted
+            # at 100): the criterion raises on the NaN sample
+            try:
+                with torch.no_grad():
+                    d.simulate(n_paths=kw.get("n_paths", 1), init_state=kw.get("init_state"))
+                    plx_ = h.compute_portfolio(d, hedge=kw.get("hedge")) - d.payoff()
+                diverged = not bool(torch.isfinite(plx_).all())
+            except Exception:
+                pass
+            finally:
+                torch.set_grad_enabled(True)
         if not diverged and outside_price_domain(world):
             # a non-positive price from the Euler local-volatility scheme: log / Black-Scholes inputs and listed quotes are NaN
             raise Inconclusive("market outside the price domain: %r" % (e,))
